@@ -18,7 +18,11 @@ Schedule entries:
                           callers (only while the cancel budget lasts) and r tick sizes (only while the tick budget
                           lasts) i < p releases the i-th parked entity, p <= i < p+q cancels the (i-p)-th cancellable
                           caller, p+q <= i < p+q+r lets tick_sizes[i-p-q] ticks pass
-    ("go", [ids])         release these entities together, in this order (those not parked are skipped)
+    ("go", [ids])         release these entities together, in this order (those not parked are skipped); with
+                          `split_bursts` (cases in which `early` recalculates) the parked bodies of the entry are released
+                          first and the callers in a step of their own: a new execution takes its first step - the cache
+                          lookup - one loop iteration after its caller's, and how that interleaves with the done-callbacks
+                          of a recalculation ending in the same iteration is below the model's granularity
     ("cancel", c)         cancel caller c (skipped if it is already done)
     ("tick", d)           d ticks of virtual time pass (d >= 1)
 Exhausted schedule: release the lowest parked entity.
@@ -43,6 +47,7 @@ class SfSched(Sched):
         self.cancel_budget = cancel_budget
         self.tick_budget = tick_budget
         self.tick_sizes = [int(d) for d in tick_sizes if int(d) >= 1]
+        self.split_bursts = False
         self.eff: list[tuple] = []
         self.obs: list[Any] = []
         self.stuck = False
@@ -160,7 +165,15 @@ class SfSched(Sched):
                 if not ids and live:
                     self.stuck = True
                     break
-                released = self._release([_tid(x) for x in e[1]])
+                want = [_tid(x) for x in e[1]]
+                if self.split_bursts:
+                    bodies = [t for t in want if t[0] == "x" and t in self.parked]
+                    rest = [t for t in want if t[0] != "x" and t in self.parked]
+                    if bodies and rest:
+                        # bodies now, the callers as the next entry
+                        self.schedule = list(self.schedule[:self.pos]) + [("go", rest)] + list(self.schedule[self.pos:])
+                        want = bodies
+                released = self._release(want)
                 if released:
                     self.eff.append(("go", released))
                     if self.log is not None:
